@@ -100,7 +100,7 @@ Proof.
   - ds_live.
   - apply groot_chk. vm_compute. reflexivity.
   - eexists. split; vm_compute; reflexivity.
-  - unfold TM2. apply (ds_all (fun m mo => o_opcode mo = aml_pOpMethod -> mtyped2 ds_tree ds_ghost m)). intros n o Hlt Hn Hop.
+  - unfold TM3. apply (ds_all (fun m mo => o_opcode mo = aml_pOpMethod -> mtyped3 ds_tree ds_ghost m)). intros n o Hlt Hn Hop.
     ds_cases n Hlt Hn o ltac:(vm_compute in Hop; discriminate).
   - unfold typed. apply (ds_all (fun i o => o_opcode o <> opFreed -> o_opcode o = aml_pOpIntNamePathOrMethodCall -> exists tbl sl, o_value o = Some (VBytes tbl sl))).
     intros n o Hlt Hn _ Hop. ds_cases n Hlt Hn o ltac:(vm_compute in Hop; discriminate).
@@ -125,50 +125,49 @@ Proof.
 Qed.
 
 (** ---- a sequence of tables ---- *)
-(** [INV]: the hypotheses of parseAML_never_panics about the pool, with "every handle in the pool is below the next handle" *)
+(** [INV]: the invariant of the load loop - the hypotheses of parseAML_never_panics about the pool, with "every handle in the pool is
+    below the next handle" *)
 Definition INV (tree : T) (g : ghost) (earlier : list (list N)) (h : N) : Prop :=
   R tree g /\ info_valid tree /\ glive g 0 /\ groot g 0 /\
   (exists o, tget tree 0 = Some o /\ o_opcode o = aml_pOpIntScopeBlock) /\
-  TM2 tree g /\ typed tree /\ pool_ok earlier tree /\
+  TM3 tree g /\ typed tree /\ pool_ok earlier tree /\
   (forall i o, tget tree i = Some o -> o_tableHandle o < h).
 
+(** the size hypothesis: the image and the quadratic memory bound over the pool at that moment *)
 Definition fits (tree : T) (data : list N) : Prop :=
   image_small data /\
   (let L := N.of_nat (length (t_pool tree)) + 4 * N.of_nat (length data) + 2 in
    L + L * (8 * N.of_nat (length data) + 3) + 4 <= InvalidIndex).
 
-(** the ONE conjunct of [INV] that is not derived for the state a successful ParseAML returns: the typing of the Methods *)
-Definition RES (s' : pstate) : Prop := forall g', R (p_tree s') g' -> TM2 (p_tree s') g'.
-
-(** a successful ParseAML re-establishes [INV] for the next handle, modulo [RES]: [R], valid indexes, slices inside the tables,
-    the live parentless ScopeBlock root, the []byte typing and the handle bound are all derived *)
-Theorem parseAML_keeps_INV_mod : forall tree g earlier h data s,
-  INV tree g earlier h -> fits tree data -> parseAML tree earlier h data = Ok (true, s) -> RES s ->
+(** a successful ParseAML re-establishes [INV] for the next handle *)
+Theorem parseAML_keeps_INV : forall tree g earlier h data s,
+  INV tree g earlier h -> fits tree data -> parseAML tree earlier h data = Ok (true, s) ->
   exists g', INV (p_tree s) g' (earlier ++ [data]) (h + 1).
 Proof.
-  intros tree g earlier h data s (HR & Hi & H0 & Hr0 & Hsb & HTM & Hty & Hpool & Hh) (Him & Hcap) E Hres.
+  intros tree g earlier h data s (HR & Hi & H0 & Hr0 & Hsb & HTM & Hty & Hpool & Hh) (Him & Hcap) E.
   assert (Hfresh : forall i o, tget tree i = Some o -> o_tableHandle o <> h) by (intros i o Ho E'; specialize (Hh i o Ho); lia).
-  pose proof (parseAML_body_post_root tree g earlier h data (parse_fuel (length data + length (t_pool tree)))
+  pose proof (parseAML_body_post3 tree g earlier h data (parse_fuel (length data + length (t_pool tree)))
                 HR Hi H0 Hr0 Hsb HTM Hty Hpool Hfresh Him Hcap) as W.
-  unfold parseAML in E. rewrite E in W. destruct W as (g' & HR' & Hi' & _ & Hb). destruct (Hb eq_refl) as (B0 & B1 & B2 & B3).
+  unfold parseAML in E. rewrite E in W. destruct W as (g' & HR' & Hi' & _ & Hb). destruct (Hb eq_refl) as (B0 & B1 & B2 & B3 & B4).
   assert (Him' : image_ok data) by (destruct Him as (Hb' & Hl); split; [exact Hb'|unfold two32 in *; lia]).
   destruct (parseAML_inv tree earlier h data true s Him' Hpool E) as (Hp' & _).
   exists g'. split; [exact HR'|]. split; [exact Hi'|]. split; [exact B0|]. split; [exact B1|]. split; [exact B3|].
-  split; [apply Hres; exact HR'|]. split; [exact B2|]. split; [exact Hp'|].
+  split; [exact B4|]. split; [exact B2|]. split; [exact Hp'|].
   intros i o Ho. assert (Hle : o_tableHandle o <= h); [|lia].
   apply (parseAML_handles tree earlier h data true s (fun j oj Hj => N.lt_le_incl _ _ (Hh j oj Hj)) E i o Ho).
 Qed.
 
+(** the sizes only: [fits] at each step (over the pool the previous tables left) *)
 Fixpoint SEQ (tree : T) (earlier : list (list N)) (h : N) (payloads : list (list N)) : Prop :=
   match payloads with
   | [] => True
   | p :: rest =>
       let data := table_image p in
       fits tree data /\
-      forall s, parseAML tree earlier h data = Ok (true, s) -> RES s /\ SEQ (p_tree s) (earlier ++ [data]) (h + 1) rest
+      forall s, parseAML tree earlier h data = Ok (true, s) -> SEQ (p_tree s) (earlier ++ [data]) (h + 1) rest
   end.
 
-Theorem load_tables_never_panics_mod : forall payloads tree g earlier h,
+Theorem load_tables_never_panics : forall payloads tree g earlier h,
   INV tree g earlier h -> SEQ tree earlier h payloads -> fst (fst (load_tables tree earlier h payloads)) <> 2.
 Proof.
   induction payloads as [|p rest IH]; intros tree g earlier h HI HS; cbn [load_tables]; [cbn; discriminate|].
@@ -177,9 +176,8 @@ Proof.
   assert (Hfresh : forall i o, tget tree i = Some o -> o_tableHandle o <> h) by (intros i o Ho E; specialize (Hh i o Ho); lia).
   pose proof (parseAML_never_panics tree g earlier h (table_image p) HR Hi H0 Hr0 Hsb HTM Hty Hpool Hfresh Him Hcap) as W.
   cbv zeta. destruct (parseAML tree earlier h (table_image p)) as [[[|] s]| |] eqn:E; cbn [fst]; try discriminate; [|contradiction].
-  destruct (Hnext s eq_refl) as (Hres & Hseq).
-  destruct (parseAML_keeps_INV_mod tree g earlier h (table_image p) s HI Hfit E Hres) as (g' & HI').
-  apply (IH (p_tree s) g' (earlier ++ [table_image p]) (h + 1) HI' Hseq).
+  destruct (parseAML_keeps_INV tree g earlier h (table_image p) s HI Hfit E) as (g' & HI').
+  apply (IH (p_tree s) g' (earlier ++ [table_image p]) (h + 1) HI' (Hnext s eq_refl)).
 Qed.
 
 Lemma ds_INV : INV ds_tree ds_ghost [] 1.
@@ -188,7 +186,7 @@ Proof.
   split; [unfold info_valid; apply (ds_all (fun i o => o_opcode o <> opFreed -> opInfo (o_infoIndex o) <> None)); intros n o Hlt Hn _;
           ds_cases n Hlt Hn o ltac:(vm_compute; discriminate)|].
   split; [ds_live|]. split; [apply groot_chk; vm_compute; reflexivity|]. split; [eexists; split; vm_compute; reflexivity|].
-  split; [unfold TM2; apply (ds_all (fun m mo => o_opcode mo = aml_pOpMethod -> mtyped2 ds_tree ds_ghost m)); intros n o Hlt Hn Hop;
+  split; [unfold TM3; apply (ds_all (fun m mo => o_opcode mo = aml_pOpMethod -> mtyped3 ds_tree ds_ghost m)); intros n o Hlt Hn Hop;
           ds_cases n Hlt Hn o ltac:(vm_compute in Hop; discriminate)|].
   split; [unfold typed; apply (ds_all (fun i o => o_opcode o <> opFreed -> o_opcode o = aml_pOpIntNamePathOrMethodCall -> exists tbl sl, o_value o = Some (VBytes tbl sl)));
           intros n o Hlt Hn _ Hop; ds_cases n Hlt Hn o ltac:(vm_compute in Hop; discriminate)|].
@@ -200,9 +198,9 @@ Proof.
   apply (ds_all (fun i o => o_tableHandle o < 1)). intros n o Hlt Hn. ds_cases n Hlt Hn o ltac:(vm_compute; reflexivity).
 Qed.
 
-(** [load]: any number of tables over the default scopes *)
-Theorem load_never_panics_mod : forall payloads,
+(** [load]: ANY NUMBER of tables over the default scopes *)
+Theorem load_never_panics : forall payloads,
   SEQ ds_tree [] 1 payloads -> fst (fst (load payloads)) <> 2.
 Proof.
-  intros payloads HS. unfold load. rewrite ds_create. exact (load_tables_never_panics_mod payloads ds_tree ds_ghost [] 1 ds_INV HS).
+  intros payloads HS. unfold load. rewrite ds_create. exact (load_tables_never_panics payloads ds_tree ds_ghost [] 1 ds_INV HS).
 Qed.
